@@ -99,7 +99,16 @@ impl TdSut {
     fn observe(&self) -> Value {
         WEXP.with(|w| w.set(self.wexp));
         let c = self.d.clone();
+        // each read method also as the FIRST read after the calls so far, on its own clone: a read that forgot
+        // to merge the backlog answers differently there ("any interleaving of reads", "repeated reads identical")
+        let (f1, f2, f3, f4, f5, f6) = (self.d.clone(), self.d.clone(), self.d.clone(), self.d.clone(), self.d.clone(), self.d.clone());
         let r = guarded(|| {
+            let first = dg!(&f1, d => (0..self.xn).map(|k| fx(d.cdf((self.xlo2 + k) as f64 / 2.0))).collect::<Vec<i64>>());
+            let firstq = dg!(&f2, d => (0..=self.qd).map(|a| fx(d.quantile(a as f64 / self.qd as f64))).collect::<Vec<i64>>());
+            let first_count = dg!(&f3, d => d.count());
+            let first_sum = dg!(&f4, d => d.sum());
+            let first_mean = dg!(&f5, d => d.mean());
+            let first_ncent = dg!(&f6, d => d.n_centroids());
             dg!(&c, d => {
                 let count = d.count();
                 let sum = d.sum();
@@ -118,6 +127,9 @@ impl TdSut {
                 let q2: Vec<i64> = (0..=self.qd).map(|a| fx(d.quantile(a as f64 / self.qd as f64))).collect();
                 let cdf2: Vec<i64> = (0..self.xn).map(|k| fx(d.cdf((self.xlo2 + k) as f64 / 2.0))).collect();
                 let reread = q == q2 && cdf == cdf2 && d.count() == count && d.sum() == sum && d.n_centroids() == ncent;
+                let same_bits = |a: f64, b: f64| a.to_bits() == b.to_bits() || (a.is_nan() && b.is_nan());
+                let first_same = first == cdf && firstq == q && same_bits(first_count, count) && same_bits(first_sum, sum)
+                    && same_bits(first_mean, mean) && first_ncent == ncent;
                 // resolution: cdf jumps by the total weight of the centroids that share one mean, so
                 // cdf(quantile(q)) lies in [q, q + largest such share]
                 let (cs, _bl, _ns) = d.verif_layout();
@@ -141,7 +153,8 @@ impl TdSut {
                 let mean_exact = if self.ghost.any { mean == gx / gw } else { mean.is_nan() };
                 json!({"count16": sc16(count), "sum16": sc16(sum), "mean_exact": mean_exact, "empty": empty, "ncent": ncent,
                        "mn": if mn.is_finite() { mn as i64 } else { INF }, "mx": if mx.is_finite() { mx as i64 } else { -INF },
-                       "q": q, "cdf": cdf, "cq": cq, "cq_lo": cq_lo, "cq_hi": cq_hi, "reread_same": reread, "res_fp": (share * FP).ceil() as i64})
+                       "q": q, "cdf": cdf, "cq": cq, "cq_lo": cq_lo, "cq_hi": cq_hi, "reread_same": reread, "first_read_same": first_same,
+                       "res_fp": (share * FP).ceil() as i64})
             })
         });
         match r {
@@ -375,7 +388,7 @@ pub fn rank(args: &[String]) {
         let (dn, dd) = [(11u64, 10u64), (2, 1), (10, 1), (100, 1), (1000, 1)][rng.below(5) as usize];
         let mb = [0usize, 1, 10, 1000][rng.below(4) as usize];
         let n = [50u64, 500, 5000, max_n][rng.below(4) as usize].min(max_n);
-        let shape = rng.below(6);
+        let shape = (di / 4) % 6; // every (scale, shape) pair within 24 digests
         let read_every = [1u64, 7, 1000, u64::MAX][rng.below(4) as usize];
         let mut d = make(scale, dn as f64 / dd as f64, mb);
         let mut vals: Vec<i64> = vec![];
@@ -397,21 +410,36 @@ pub fn rank(args: &[String]) {
         }
         let qd = 16i64;
         tid += 1;
+        let mut sorted = vals.clone();
+        sorted.sort();
+        // rank interval of a value v among the inserted values, with a few ulps of slack so that a result that
+        // sits an ulp beside a tied value is ranked with the tie: (#{x < v - ulps}, #{x <= v + ulps})
+        let ranks = |v: f64| -> (usize, usize) {
+            let u = 8.0 * f64::EPSILON * v.abs().max(1.0);
+            let lt = sorted.partition_point(|x| (*x as f64) < v - u);
+            let le = sorted.partition_point(|x| (*x as f64) <= v + u);
+            (lt, le)
+        };
         let r = guarded(|| {
             dg!(&d, x => {
-                let q: Vec<i64> = (0..=qd).map(|a| (x.quantile(a as f64 / qd as f64) * 16.0).floor() as i64).collect();
+                let qv: Vec<f64> = (0..=qd).map(|a| x.quantile(a as f64 / qd as f64)).collect();
+                let q: Vec<i64> = qv.iter().map(|v| (v * 16.0).floor() as i64).collect();
+                let q_lt: Vec<usize> = qv.iter().map(|v| ranks(*v).0).collect();
+                let q_le: Vec<usize> = qv.iter().map(|v| ranks(*v).1).collect();
                 let mut cx: Vec<i64> = (0..12).map(|_| vals[rng.below(vals.len() as u64) as usize]).collect();
                 cx.sort();
                 let cdf: Vec<i64> = cx.iter().map(|v| (x.cdf(*v as f64) * 4096.0).floor() as i64).collect();
-                json!({"k":"p","s":"tdrank","tid":tid,"ncent": x.n_centroids(), "qd": qd, "q": q, "cx": cx, "cdf": cdf})
+                let c_lt: Vec<usize> = cx.iter().map(|v| ranks(*v as f64).0).collect();
+                let c_le: Vec<usize> = cx.iter().map(|v| ranks(*v as f64).1).collect();
+                json!({"k":"p","s":"tdrank","tid":tid,"ncent": x.n_centroids(), "qd": qd, "q": q, "q_lt": q_lt, "q_le": q_le,
+                       "cx": cx, "cdf": cdf, "c_lt": c_lt, "c_le": c_le, "n": vals.len()})
             })
         });
         match r {
-            Ok(mut rec) => {
-                rec["vals"] = json!(vals);
+            Ok(rec) => {
                 out.put(&rec);
             }
-            Err(m) => out.put(&json!({"k":"p","s":"tdrank","tid":tid,"panic":m,"ncent":1u64<<30,"qd":1,"q":[0,0],"cx":[],"cdf":[],"vals":[0]})),
+            Err(m) => out.put(&json!({"k":"p","s":"tdrank","tid":tid,"panic":m,"ncent":1u64<<30,"qd":1,"q":[0,0],"q_lt":[0,0],"q_le":[0,0],"cx":[],"cdf":[],"c_lt":[],"c_le":[],"n":1})),
         }
     }
     out.flush();
